@@ -5,7 +5,7 @@ import ast
 
 from . import e2_formula as F
 from .core import AnchorError, Unsupported
-from .e1_srcmodel import dotted, walk_no_nested, parent, ancestors
+from .e1_srcmodel import dotted, walk_no_nested, parent, ancestors, utext
 from .e2_eval import Evaluator, Unknown, is_unknown, need
 
 N2P = "pyyeti/nastran/n2p.py"
@@ -60,11 +60,11 @@ def r1_inverse_pair(ctx):
     T, origin = F.sym("T"), F.sym("org")
     for ctype, label in ((2, "cylindrical"), (3, "spherical")):
         def cond(test, ev, ctype=ctype):
-            t = ast.unparse(test).replace(" ", "")
+            t = utext(test)
             return {"coordinfo[0,1]==1": ctype == 1, "coordinfo[0,1]==2": ctype == 2}.get(t)
 
         def sub(node, ev):
-            t = ast.unparse(node).replace(" ", "")
+            t = utext(node)
             return {"coordinfo[2:]": T, "coordinfo[1]": origin, "a[0]": a[0], "a[1]": a[1], "a[2]": a[2]}.get(t, NotImplemented)
 
         ev = Evaluator(env={"math.pi": pi}, src=ctx.src, cond=cond, subscript=sub, call=_calls)
@@ -106,7 +106,7 @@ def r1_inverse_pair(ctx):
         for pick in (True, False):
             results.clear()
             ev2 = Evaluator(env={"g": vec, "math.pi": pi}, src=ctx.src, call=call2,
-                            cond=lambda test, ev, pick=pick: pick if "abs(s)>abs(c)" in ast.unparse(test).replace(" ", "") else None)
+                            cond=lambda test, ev, pick=pick: pick if "abs(s)>abs(c)" in utext(test) else None)
             for st in stmts:
                 if isinstance(st, ast.Expr):
                     ev2.ev(st.value)
@@ -171,15 +171,15 @@ def _subst_atan2_trig(r, angle):
 
 def r2_dispatch(ctx):
     fwd = ctx.src.func(N2P, "_get_loc_a_basic")
-    t = ast.unparse(fwd).replace(" ", "")
+    t = utext(fwd)
     ok = "ifcoordinfo[0,1]==1:" in t and "ifcoordinfo[0,1]==2:" in t
     ctx.check(ok, "_get_loc_a_basic: type 1 rectangular, type 2 cylindrical, otherwise spherical", fwd)
     inv = ctx.src.func(N2P, "getcoordinates")
-    t = ast.unparse(inv).replace(" ", "")
+    t = utext(inv)
     ok = "ifctype==1:" in t and "elifctype==2:" in t and "ctype=coordinfo[0,1].astype(np.int64)" in t
     ctx.check(ok, "getcoordinates: the same type codes select the inverse maps", inv)
     rb = ctx.src.func(N2P, "rbgeom_uset")
-    t = ast.unparse(rb).replace(" ", "")
+    t = utext(rb)
     ok = "cyl=(uset.loc[slice(None),2,'y']==2).values" in t.replace("(slice(None),2)", "slice(None),2") and \
         "sph=(uset.loc[slice(None),2,'y']==3).values" in t.replace("(slice(None),2)", "slice(None),2")
     ctx.check(ok, "rbgeom_uset: cylindrical grids are those whose output-system type is 2, spherical 3", rb)
@@ -188,7 +188,7 @@ def r2_dispatch(ctx):
     for c in ast.walk(rb):
         if isinstance(c, ast.Call) and dotted(c.func) == "math.atan2":
             n += 1
-            args = {ast.unparse(a).replace(" ", "") for a in c.args}
+            args = {utext(a) for a in c.args}
             guard = None
             for anc in ancestors(c):
                 if isinstance(anc, ast.If) and any(c is y for x in anc.body for y in ast.walk(x)):
@@ -200,7 +200,7 @@ def r2_dispatch(ctx):
                       None if ok else {"guard": gt, "consequence": "a grid at theta = 180 deg (y = 0, x < 0) is off the axis but would not be rotated into its local frame"})
     ctx.check(n == 3, "rbgeom_uset: three azimuth/polar angle computations are guarded", rb, n, nontrivial=False)
     # the 2x2 rotation built from the angle is applied to translations and rotations alike
-    t = ast.unparse(rb).replace(" ", "")
+    t = utext(rb)
     ok = t.count("t=np.array([[c,s],[-s,c]])") == 2 and t.count("rb2[i:i+2]=t@rb2[i:i+2]") == 2 and t.count("rb2[i+3:i+5]=t@rb2[i+3:i+5]") == 2
     ctx.check(ok, "rbgeom_uset: the in-plane rotation [[c, s], [-s, c]] is applied to the translational and the rotational rows of the grid, "
                   "in the cylindrical and the spherical fix-up alike", rb)
@@ -229,7 +229,7 @@ def r3_rbgeom(ctx):
                 got[(row, cs.value)] = (sign, comp)
     ok = got == want
     ctx.check(ok, "rbgeom: rotational columns are the cross product theta x r: (0,-z,y), (z,0,-x), (-y,x,0)", fn, None if ok else {str(k): v for k, v in got.items()})
-    t = ast.unparse(fn).replace(" ", "")
+    t = utext(fn)
     ok = "foriinrange(6):rbmodes[i::6,i]=1.0" in t.replace("\n", "")
     ctx.check(ok, "rbgeom: unit translation / rotation of every grid in its own component", fn)
     # the reference shift
@@ -245,7 +245,7 @@ def r3_rbgeom(ctx):
     ok = "ifnp.size(refpoint)==1:grids=grids-grids[refpoint]" in t.replace("\n", "")
     ctx.check(ok, "rbgeom: a scalar reference selects that grid's location", fn)
     mv = ctx.src.func(N2P, "rbmove")
-    ok = "returnrb@rbgeom(oldref,newref)" in ast.unparse(mv).replace(" ", "")
+    ok = "returnrb@rbgeom(oldref,newref)" in utext(mv)
     ctx.check(ok, "rbmove: modes about a new reference = modes @ rbgeom(old reference about new reference)", mv)
 
 
